@@ -27,7 +27,8 @@ RULE = (
     "must deep-equal its copy. Stream 'batt_faults' (fault enumeration): for a terminating "
     "battery model with n callback calls, batt_life is run with an exception injected at "
     "call k for EVERY k = 0..n-1 (five exception types, two of them BaseException-only), and with the battery state making "
-    "the solver fail at step k; afterwards - returned or raised - params() must show the "
+    "the solver fail at step k, and with the deplete callback returning a non-finite capacity at "
+    "step k; afterwards - returned or raised - params() must show the "
     "battery's original vo and rs and the snapshot must be unchanged (the battery is named "
     "by component name or by its rail name). Stream 'interleaved_edits': a generated edit "
     "history is run twice, once with analysis calls inserted between the edits at drawn "
@@ -51,7 +52,8 @@ class Injected(Exception):
     pass
 
 
-def battery_model(c0, v0, r0, steps, fail_at=None, exc=None, bad_state_at=None):
+def battery_model(c0, v0, r0, steps, fail_at=None, exc=None, bad_state_at=None,
+                  nonfinite_at=None, nonfinite=float("nan")):
     """Scripted, terminating battery: capacity falls linearly to 0 in `steps` deplete calls;
     voltage sags 10 %.  fail_at: index of the callback call (0 = probe) that raises `exc`;
     bad_state_at: deplete call after which the battery reports a huge resistance."""
@@ -69,6 +71,8 @@ def battery_model(c0, v0, r0, steps, fail_at=None, exc=None, bad_state_at=None):
         rs = r0
         if bad_state_at is not None and k >= bad_state_at:
             rs = 1e9
+        if nonfinite_at is not None and k == nonfinite_at:
+            cap = nonfinite
         return (cap, v0 * (1.0 - 0.1 * k / steps), rs)
 
     def pfunc():
@@ -139,6 +143,9 @@ def do_call(sys, spec, call, arg, tmp):
             conf["node"][names[arg % len(names)]] = {"shape": "ellipse"}
             conf["graph"]["rankdir"] = ["TB", "LR", "BT", "RL"][arg % 4]
             cfg = conf if arg % 3 else {}
+            grouped = any(n["group"] for n in spec["nodes"])
+            if cfg and arg % 5 == 1 and (not grouped or not arg % 2):
+                del cfg["cluster"]  # a configuration without cluster section (no clusters drawn)
             passed.append(("config", cfg, copy.deepcopy(cfg)))
             fn = make_diag if call == "make_diag" else make_hdiag
             try:
@@ -283,6 +290,19 @@ def body_batt(case, stats):
         except (ValueError, RuntimeError):
             stats.cls("fault:solver_failed")
         after("solver failure from deplete call {}".format(k))
+    # the deplete callback *returns* a non-finite capacity at step k (batt_life may raise)
+    for k in range(1, max(2, n)):
+        for bad in (float("nan"), float("inf"), float("-inf")):
+            pf, df, st_ = battery_model(0.02, vbat, 0.05, steps, nonfinite_at=k, nonfinite=bad)
+            try:
+                with warnings.catch_warnings():
+                    warnings.simplefilter("ignore")
+                    sys.batt_life(batt, cutoff=cutoff, pfunc=pf, dfunc=df)
+            except Exception:
+                stats.cls("fault:nonfinite_state_raised")
+            else:
+                stats.cls("fault:nonfinite_state_returned")
+            after("non-finite capacity {} returned by deplete call {}".format(bad, k))
     stats.cls("callback_calls={}".format(min(n, 12)))
     stats.nontriv(jhash([spec["nodes"], spec["phases"], steps, excname, bi]),
                   sample={"battery": batt, "model_steps": steps, "exception": excname,
